@@ -1,5 +1,5 @@
 //verif:pkg internal/spynode
-//verif:kit memstore nodekit
+//verif:kit memstore nodekit interleave
 package spynode
 
 // C07 — safe only when warranted, once, and never after unsafe.
@@ -175,3 +175,129 @@ func VerifHarness_C07_safe() {
 }
 
 var _ = bitcoin.Hash32{}
+
+
+// VerifHarness_C07_race: the delay checker has fetched the state of a transaction it is about to
+// report safe when, at the interleaving point before it writes the state back, another goroutine
+// processes a conflicting transaction, or a block that confirms the transaction or its rival.
+func VerifHarness_C07_race() {
+	ctx := context.Background()
+	k, err := vkNewNode(ctx, nil)
+	verifrt.Assert(err == nil, "C07.kit.node-loads")
+	node, rec := k.node, k.rec
+	node.state.SetInSync()
+	node.config.SafeTxDelay = 1000
+	t := vkTx(70, []int{0}, true)
+	rival := vkTx(71, []int{0, 1}, true)
+	tid := *t.TxHash()
+	perr := node.processUnconfirmedTx(ctx, handlers.TxData{Msg: t, Trusted: true, ConfirmedHeight: -1})
+	verifrt.Assert(perr == nil, "C07.event.no-error")
+	verifrt.Advance(3 * time.Second)
+	what := verifrt.Choose("interleaved-step", 4) // 0 nothing, 1 rival arrives, 2 block confirms t, 3 block confirms the rival
+	ran, serialised := false, false
+	other := func() {
+		switch what {
+		case 1:
+			node.processUnconfirmedTx(ctx, handlers.TxData{Msg: rival, Trusted: true, ConfirmedHeight: -1})
+		case 2:
+			node.ProcessBlock(ctx, vkBlock(*node.blocks.LastHash(), 1, []*wire.MsgTx{t}))
+		case 3:
+			node.ProcessBlock(ctx, vkBlock(*node.blocks.LastHash(), 1, []*wire.MsgTx{rival}))
+		}
+		ran = true
+	}
+	vkInterleave = func(point string) {
+		if what != 0 && !ran && !serialised {
+			serialised = verifrt.RunUntilBlocked(other)
+			verifrt.Reach("C07.race.interleaved")
+		}
+	}
+	c07DelayCheck(ctx, node)
+	vkInterleave = nil
+	if serialised && !verifrt.Symbolic() {
+		time.Sleep(150 * time.Millisecond) // natively the waiting step proceeds by itself
+	}
+	if what != 0 && !ran {
+		other()
+	}
+	sawBad := false // unsafe or cancelled reported for t
+	for _, n := range rec.events {
+		if n.txid != tid || (n.kind != "tx" && n.kind != "update") {
+			continue
+		}
+		verifrt.Sig("race", what, "both")
+		verifrt.Assert(!(n.state.Safe && n.state.UnSafe), "C07.state.never-safe-and-unsafe")
+		if sawBad {
+			verifrt.Sig("race", what, "safe-after-unsafe")
+			verifrt.Assert(!n.state.Safe, "C07.state.no-safe-after-unsafe")
+		}
+		if n.state.UnSafe || n.state.Cancelled {
+			sawBad = true
+		}
+	}
+	// what the node stored agrees with what it reported last
+	stored, ferr := vkFetchState(ctx, node, tid)
+	verifrt.Assert(ferr == nil, "C07.race.state-stored")
+	if ferr == nil && sawBad {
+		verifrt.Sig("race", what, "stored")
+		verifrt.Assert(stored.UnSafe && !stored.Safe, "C07.race.stored-state-keeps-the-unsafe-report")
+	}
+	if ferr == nil && what == 2 {
+		verifrt.Sig("race", what, "proof-kept")
+		verifrt.Assert(stored.MerkleProof != nil, "C07.race.stored-state-keeps-the-confirmation")
+	}
+	verifrt.Reach("C07.race.done")
+}
+
+
+// VerifHarness_C07_irrelevant_rival: the conflicting transaction does not match the client's
+// subscriptions (it is never delivered itself), in every order with the sightings of t and the
+// delay checker: t must not be reported safe while that conflict is known.
+func VerifHarness_C07_irrelevant_rival() {
+	ctx := context.Background()
+	k, err := vkNewNode(ctx, nil)
+	verifrt.Assert(err == nil, "C07.kit.node-loads")
+	node, rec := k.node, k.rec
+	node.state.SetInSync()
+	node.config.SafeTxDelay = 1000
+	t := vkTx(70, []int{0}, true)
+	rival := vkTx(71, []int{0, 1}, false) // spends outpoint 0 as well, not relevant
+	tid := *t.TxHash()
+	conflict := false
+	nEvents := 3
+	if verifrt.Thorough() {
+		nEvents = 4
+	}
+	for e := 0; e < nEvents; e++ {
+		mark := len(rec.events)
+		var perr error
+		switch verifrt.Choose("event", 5) {
+		case 0:
+			perr = node.processUnconfirmedTx(ctx, handlers.TxData{Msg: rival, Trusted: verifrt.Choose("rival-trusted", 2) == 1, ConfirmedHeight: -1})
+			conflict = true
+		case 1:
+			perr = node.processUnconfirmedTx(ctx, handlers.TxData{Msg: t, Trusted: true, ConfirmedHeight: -1})
+		case 2:
+			perr = node.processUnconfirmedTx(ctx, handlers.TxData{Msg: t, Trusted: false, ConfirmedHeight: -1})
+		case 3:
+			inv := wire.NewMsgInv()
+			h := tid
+			inv.AddInvVect(wire.NewInvVect(wire.InvTypeTx, &h))
+			_, perr = node.messageHandlers[wire.CmdInv].Handle(ctx, inv)
+		case 4:
+			verifrt.Advance(3 * time.Second)
+			c07DelayCheck(ctx, node)
+		}
+		verifrt.Assert(perr == nil, "C07.event.no-error")
+		for _, n := range rec.events[mark:] {
+			if n.txid != tid || (n.kind != "tx" && n.kind != "update") {
+				continue
+			}
+			verifrt.Sig("irrelevant-rival", "safe-with-conflict")
+			verifrt.Assert(!(n.state.Safe && !n.hasProof && conflict), "C07.safe.only-without-known-conflict")
+			verifrt.Sig("irrelevant-rival", "both")
+			verifrt.Assert(!(n.state.Safe && n.state.UnSafe), "C07.state.never-safe-and-unsafe")
+		}
+	}
+	verifrt.Reach("C07.irrelevant-rival.done")
+}
